@@ -22,8 +22,11 @@ Max2(a, b) == IF a > b THEN a ELSE b
 (* Guard switches (DESIGN.md 3.6): every safety mechanism named in the        *)
 (* property anchors is wrapped, so a spec mutant can switch it off.           *)
 CONSTANT Weaken
+\* Guard: a permission ("may do it only if cond"); weakened = always permitted.
+\* Block: a refusal ("does not do it while cond"); weakened = never refused.
 Guard(name, cond) == IF name \in Weaken THEN TRUE ELSE cond
 Weak(name) == name \in Weaken
+Block(name, cond) == name \notin Weaken /\ cond
 
 ----------------------------------------------------------------------------
 (* Generic sequence helpers                                                   *)
@@ -244,7 +247,7 @@ MaxAppliable(n, allowUnstable) ==
 \* raftLog.nextCommittedEnts
 NextCommittedEnts(c, n, d, allowUnstable) ==
   IF n.applyPaused THEN <<>>
-  ELSE IF Guard("snapshot_blocks_apply", n.usnap.has) /\ n.usnap.has THEN <<>>
+  ELSE IF Block("snapshot_blocks_apply", n.usnap.has) THEN <<>>
   ELSE LET lo == n.applying + 1
            hi == MaxAppliable(n, allowUnstable) + 1
        IN  IF lo >= hi THEN <<>>
@@ -328,7 +331,7 @@ IsSingleton(n) == Len(n.cfg.voters) = 1 /\ Len(n.cfg.outgoing) = 0
 InsertSorted(s, r) == LET lo == SelectSeq(s, LAMBDA x : x.id < r.id) hi == SelectSeq(s, LAMBDA x : x.id > r.id)
                       IN lo \o <<r>> \o hi
 RecordVote(n, id, v) ==
-  IF Guard("first_vote_wins", \E k \in DOMAIN n.votes : n.votes[k].id = id) /\ (\E k \in DOMAIN n.votes : n.votes[k].id = id)
+  IF Block("first_vote_wins", \E k \in DOMAIN n.votes : n.votes[k].id = id)
   THEN n ELSE [n EXCEPT !.votes = InsertSorted(@, [id |-> id, v |-> v])]
 
 ----------------------------------------------------------------------------
@@ -343,7 +346,7 @@ SendPanics(c, n, m) == (IsVoteType(m.type) /\ m.term = 0) \/ (~AfterAppendType(m
 Send(c, n, m0) ==
   LET m1 == IF m0.from = None THEN [m0 EXCEPT !.from = c.id] ELSE m0
       m  == IF IsVoteType(m1.type) \/ m1.type \in {"Prop", "ReadIndex"} THEN m1 ELSE [m1 EXCEPT !.term = n.term]
-  IN  IF Guard("resp_after_append", AfterAppendType(m.type)) /\ AfterAppendType(m.type)
+  IN  IF Block("resp_after_append", AfterAppendType(m.type))
       THEN [n EXCEPT !.after = Append(@, m)]
       ELSE [n EXCEPT !.msgs = Append(@, m)]
 
@@ -362,11 +365,11 @@ MaybeSendSnapshot(c, n, d, to) ==
 
 MaybeSendAppend(c, n, d, to, sendIfEmpty) ==
   LET pr == GetPr(n, to) IN
-  IF Guard("snapshot_pauses_append", PrIsPaused(pr)) /\ PrIsPaused(pr) THEN [n |-> n, sent |-> FALSE]
+  IF Block("snapshot_pauses_append", PrIsPaused(pr)) THEN [n |-> n, sent |-> FALSE]
   ELSE LET prevIndex == pr.next - 1
            prevTerm == LogTerm(n, d, prevIndex)
        IN  IF prevTerm < 0 THEN MaybeSendSnapshot(c, n, d, to)
-           ELSE LET r == IF pr.state # "Replicate" \/ ~Guard("inflights_full", InfFull(c, pr.inflights))
+           ELSE LET r == IF pr.state # "Replicate" \/ ~Block("inflights_full", InfFull(c, pr.inflights))
                          THEN LogEntriesFrom(n, d, pr.next, IF Weak("max_size_per_msg") THEN NoLimit ELSE MaxMsgSize(c))
                          ELSE [err |-> "", ents |-> <<>>]
                     ents == r.ents
@@ -455,8 +458,7 @@ BecomePreCandidate(c, n) == [n EXCEPT !.votes = <<>>, !.lead = None, !.role = "P
 \* increaseUncommittedSize
 IncreaseUncommitted(c, n, ents) ==
   LET s == PayloadBytes(ents) IN
-  IF Guard("uncommitted_size_limit", n.uncommittedSz > 0 /\ s > 0 /\ n.uncommittedSz + s > MaxUncommitted(c))
-     /\ (n.uncommittedSz > 0 /\ s > 0 /\ n.uncommittedSz + s > MaxUncommitted(c))
+  IF Block("uncommitted_size_limit", n.uncommittedSz > 0 /\ s > 0 /\ n.uncommittedSz + s > MaxUncommitted(c))
   THEN [n |-> n, ok |-> FALSE]
   ELSE [n |-> [n EXCEPT !.uncommittedSz = @ + s], ok |-> TRUE]
 ReduceUncommitted(n, s) == [n EXCEPT !.uncommittedSz = IF s > @ THEN 0 ELSE @ - s]
@@ -524,7 +526,7 @@ Campaign(c, n, d, t, rto) ==
 Hup(c, n, d, t, rto) ==
   IF n.role = "L" THEN n
   ELSE IF ~Promotable(c, n) THEN n
-  ELSE IF Guard("hup_unapplied_conf", HasUnappliedConfChanges(n, d)) /\ HasUnappliedConfChanges(n, d) THEN n
+  ELSE IF Block("hup_unapplied_conf", HasUnappliedConfChanges(n, d)) THEN n
   ELSE Campaign(c, n, d, t, rto)
 
 ----------------------------------------------------------------------------
@@ -638,9 +640,9 @@ StepLeaderProp(c, n, d, ents0) ==
                ELSE LET alreadyPending == prev.pc > n.applied
                         alreadyJoint == IsJointCfg(n.cfg)
                         wantsLeave == Len(e.cc.changes) = 0
-                        failed == \/ Guard("pending_conf_gate", alreadyPending) /\ alreadyPending
-                                  \/ Guard("joint_gate", alreadyJoint /\ ~wantsLeave) /\ (alreadyJoint /\ ~wantsLeave)
-                                  \/ Guard("leave_joint_gate", ~alreadyJoint /\ wantsLeave) /\ (~alreadyJoint /\ wantsLeave)
+                        failed == \/ Block("pending_conf_gate", alreadyPending)
+                                  \/ Block("joint_gate", alreadyJoint /\ ~wantsLeave)
+                                  \/ Block("leave_joint_gate", ~alreadyJoint /\ wantsLeave)
                     IN  IF failed /\ ~c.disableCCValidation
                         THEN [pc |-> prev.pc, ents |-> Append(prev.ents, NeutralEntry)]
                         ELSE [pc |-> LastIndex(n, d) + k, ents |-> Append(prev.ents, e)]
@@ -653,7 +655,7 @@ StepLeaderProp(c, n, d, ents0) ==
 AppliedTo(c, n, d, index, size) ==
   LET newApplied == Max2(index, n.applied)
       n1 == LogAppliedTo(c, n, newApplied, size)
-  IN  IF Guard("auto_leave", TRUE) /\ n1.cfg.autoLeave /\ newApplied >= n1.pendingConf /\ n1.role = "L"
+  IN  IF ~Weak("auto_leave") /\ n1.cfg.autoLeave /\ newApplied >= n1.pendingConf /\ n1.role = "L"
       THEN StepLeaderProp(c, n1, d, <<AutoLeaveEntry>>).n
       ELSE n1
 
@@ -662,7 +664,7 @@ AppliedSnap(c, n, d, s) == AppliedTo(c, StableSnapTo(n, s.index), d, s.index, 0)
 ----------------------------------------------------------------------------
 (* handlers                                                                   *)
 HandleAppendEntries(c, n, d, m) ==
-  IF Guard("append_below_commit", m.index < n.commit) /\ m.index < n.commit
+  IF Block("append_below_commit", m.index < n.commit)
   THEN Send(c, n, [Msg("AppResp", m.from) EXCEPT !.index = n.commit])
   ELSE LET r == LogMaybeAppend(n, d, m.index, m.logTerm, m.entries, m.commit) IN
        IF r.ok THEN Send(c, r.n, [Msg("AppResp", m.from) EXCEPT !.index = r.lastnew])
@@ -675,12 +677,12 @@ HandleHeartbeat(c, n, d, m) ==
 
 \* raft.restore -> [n, ok]
 Restore(c, n, d, s, rto) ==
-  IF Guard("restore_index_le_commit", s.index <= n.commit) /\ s.index <= n.commit THEN [n |-> n, ok |-> FALSE]
+  IF Block("restore_index_le_commit", s.index <= n.commit) THEN [n |-> n, ok |-> FALSE]
   ELSE IF n.role # "F" THEN [n |-> BecomeFollower(c, n, d, n.term + 1, None, rto), ok |-> FALSE]
-  ELSE IF Guard("restore_member_only", TRUE)
+  ELSE IF ~Weak("restore_member_only")
           /\ c.id \notin (SeqSet(s.conf.voters) \cup SeqSet(s.conf.learners) \cup SeqSet(s.conf.outgoing))
        THEN [n |-> n, ok |-> FALSE]
-  ELSE IF Guard("restore_match_fast_forward", MatchTerm(n, d, s.index, s.term)) /\ MatchTerm(n, d, s.index, s.term)
+  ELSE IF Block("restore_match_fast_forward", MatchTerm(n, d, s.index, s.term))
        THEN [n |-> CommitTo(n, s.index), ok |-> FALSE]
   ELSE LET n1 == LogRestore(n, s)
            cs == [voters |-> SeqSet(s.conf.voters), outgoing |-> SeqSet(s.conf.outgoing),
@@ -706,12 +708,12 @@ SendTimeoutNow(c, n, to) == Send(c, n, Msg("TimeoutNow", to))
 StepLeader(c, n, d, m, rto) ==
   CASE m.type = "Beat" -> OK(BcastHeartbeat(c, n))
     [] m.type = "CheckQuorum" ->
-         LET n1 == IF Guard("check_quorum_step_down", ~QuorumActive(n)) /\ ~QuorumActive(n)
+         LET n1 == IF Block("check_quorum_step_down", ~QuorumActive(n))
                    THEN BecomeFollower(c, n, d, n.term, None, rto) ELSE n
          IN  OK([n1 EXCEPT !.prs = [k \in DOMAIN @ |-> IF @[k].id # c.id THEN [@[k] EXCEPT !.recentActive = FALSE] ELSE @[k]]])
     [] m.type = "Prop" -> StepLeaderProp(c, n, d, m.entries)
     [] m.type = "ReadIndex" ->
-         IF Guard("ro_wait_own_term_commit", ~CommittedEntryInCurrentTerm(n, d)) /\ ~CommittedEntryInCurrentTerm(n, d)
+         IF Block("ro_wait_own_term_commit", ~CommittedEntryInCurrentTerm(n, d))
          THEN OK([n EXCEPT !.pendingReads = Append(@, m)])
          ELSE OK(SendReadIndexResponse(c, n, d, m))
     [] m.type = "ForgetLeader" -> OK(n)
@@ -775,7 +777,7 @@ StepCandidate(c, n, d, m, rto) ==
     [] m.type = "Snap" -> OK(HandleSnapshot(c, BecomeFollower(c, n, d, m.term, m.from, rto), d, m, rto))
     [] m.type = myResp ->
          \* a granted pre-vote carries the term it was granted for; one for an earlier pre-campaign is ignored
-         IF Guard("prevote_grant_for_this_term", TRUE) /\ n.role = "PC" /\ ~m.reject /\ m.term # n.term + 1 THEN OK(n)
+         IF ~Weak("prevote_grant_for_this_term") /\ n.role = "PC" /\ ~m.reject /\ m.term # n.term + 1 THEN OK(n)
          ELSE
          LET n1 == RecordVote(n, m.from, ~m.reject)
              res == TallyVotes(n1)
@@ -783,7 +785,7 @@ StepCandidate(c, n, d, m, rto) ==
          IN  CASE res = "Won" ->
                     IF n1.role = "PC" THEN OK(Campaign(c, n1, d, "election", rto))
                     \* the own vote (and term) must be durable first: wait for the self-addressed MsgVoteResp
-                    ELSE IF Guard("leader_after_own_vote_durable", ~ownVote) /\ ~ownVote THEN OK(n1)
+                    ELSE IF Block("leader_after_own_vote_durable", ~ownVote) THEN OK(n1)
                     ELSE OK(BcastAppend(c, BecomeLeader(c, n1, d, rto), d))
                [] res = "Lost" -> OK(BecomeFollower(c, n1, d, n1.term, None, rto))
                [] OTHER -> OK(n1)
@@ -813,7 +815,7 @@ Step(c, n0, d, m, rto) ==
     inLease == c.checkQuorum /\ n0.lead # None /\ n0.ee < c.electionTick
     force == m.ctxKind = "transfer"
     ignoredByLease == m.term > n0.term /\ m.type \in {"Vote", "PreVote"} /\ ~force
-                      /\ Guard("lease_ignores_vote", inLease) /\ inLease
+                      /\ Block("lease_ignores_vote", inLease)
     n == IF m.term = 0 \/ m.term <= n0.term THEN n0
          ELSE IF m.type = "PreVote" /\ ~Weak("prevote_keeps_term") THEN n0
          ELSE IF m.type = "PreVoteResp" /\ ~m.reject THEN n0
